@@ -244,10 +244,14 @@ impl Model {
             return Some(true);
         }
         match self.frames.get(&ctx) {
-            Some(f) if f.topic == "xs.context" && f.ctx == ZERO => match f.presence {
-                Presence::Present => Some(true),
-                Presence::Maybe => None,
-            },
+            Some(f) if f.topic == "xs.context" && f.ctx == ZERO => {
+                // (a registration whose own time:N TTL has elapsed may or may not
+                // have been collected yet: undetermined until it is)
+                match self.eff(f, &self.pending_evictable()) {
+                    Presence::Present => Some(true),
+                    Presence::Maybe => None,
+                }
+            }
             _ => Some(false),
         }
     }
@@ -405,8 +409,23 @@ impl Model {
         };
         self.gone.remove(&id);
         let (ctx, topic) = (mf.ctx, mf.topic.clone());
-        if self.has_task(ctx, &topic) {
+        if self.has_task(ctx, &topic)
+            || self
+                .queue
+                .iter()
+                .any(|q| matches!(q, GcItem::Remove { id: r, .. } if *r == id))
+        {
+            // queued collector work for this id / topic may run before or after this import
             self.reinserted.insert(id);
+        }
+        let mut mf = mf;
+        if self
+            .queue
+            .iter()
+            .any(|q| matches!(q, GcItem::Remove { id: r, .. } if *r == id))
+        {
+            // a removal of this very id is still queued: it may hit the new frame
+            mf.pending_remove = Some(false);
         }
         self.frames.insert(id, mf);
         self.touch_tasks(ctx, &topic);
@@ -765,6 +784,7 @@ impl Model {
         for item in queue {
             match item {
                 GcItem::Remove { id, certain } => {
+                    let certain = certain && !self.reinserted.contains(&id);
                     if certain {
                         gone_gc.insert(id);
                         maybe_gc.remove(&id);
